@@ -4961,3 +4961,256 @@ func runAppended(prop string) func(*Ctx, *Result) {
 		}
 	}
 }
+
+// kindSizeRule: an arm selected by one reflect.Kind gives the datatype the size of that kind.
+func kindSizeRule(c *Ctx, r *Result, rule string, floor int) {
+	sizeOf := func(kind int64) (int64, bool) {
+		switch kind {
+		case 3, 8: // Int8, Uint8
+			return 1, true
+		case 4, 9:
+			return 2, true
+		case 5, 10, 13:
+			return 4, true
+		case 6, 11, 14:
+			return 8, true
+		}
+		return 0, false
+	}
+	n := 0
+	for _, fn := range c.LibFuncs() {
+		if shortPkg(fnPkgPath(fn)) != "hdf5" || fn.Blocks == nil {
+			continue
+		}
+		instrs(fn, func(in ssa.Instruction) {
+			phi, ok := in.(*ssa.Phi)
+			if !ok || !isIntType(phi.Type()) {
+				return
+			}
+			// the merged value becomes the Size of a datatype message
+			toSize := false
+			var walk func(v ssa.Value, d int)
+			walk = func(v ssa.Value, d int) {
+				if d > 3 || v.Referrers() == nil {
+					return
+				}
+				for _, ref := range *v.Referrers() {
+					switch x := ref.(type) {
+					case *ssa.Convert:
+						walk(x, d+1)
+					case *ssa.Store:
+						if f, base := fieldOfAddr(x.Addr); f != nil && fieldKey(base.Type(), f) == "core.DatatypeMessage.Size" && x.Val == v {
+							toSize = true
+						}
+					}
+				}
+			}
+			walk(phi, 0)
+			if !toSize {
+				return
+			}
+			for i, e := range phi.Edges {
+				cst, isK := constInt(e)
+				if !isK {
+					continue
+				}
+				pred := phi.Block().Preds[i]
+				if len(pred.Preds) != 1 {
+					continue
+				}
+				sel := pred.Preds[0]
+				ifi, isIf := sel.Instrs[len(sel.Instrs)-1].(*ssa.If)
+				if !isIf || sel.Succs[0] != pred {
+					continue
+				}
+				cmp, isC := ifi.Cond.(*ssa.BinOp)
+				if !isC || cmp.Op != token.EQL {
+					continue
+				}
+				kind, isKind := constInt(cmp.Y)
+				call, isCall := stripConv(cmp.X).(*ssa.Call)
+				if !isKind || !isCall {
+					continue
+				}
+				name := ""
+				if call.Call.IsInvoke() {
+					name = call.Call.Method.Name()
+				} else if f := call.Call.StaticCallee(); f != nil {
+					name = f.Name()
+				}
+				want, known := sizeOf(kind)
+				if name != "Kind" || !known {
+					continue
+				}
+				n++
+				r.Check(cst == want, rule, fmt.Sprintf("%s#size-for-kind-%d", c.Name(fn), kind), c.InstrPos(ifi), fmt.Sprintf("the arm for reflect kind %d gives the datatype size %d", kind, cst))
+			}
+		})
+	}
+	if n < floor {
+		r.Undec(rule, "hdf5#kind-selected-datatype-sizes", "", fmt.Sprintf("only %d kind-selected size constants found (expected >= %d)", n, floor))
+	}
+}
+
+// byteLoopCoversWidthRule: a loop that assembles or spreads an integer byte by byte (shift by 8*i) runs over all `size` bytes.
+func byteLoopCoversWidthRule(c *Ctx, r *Result, rule string, floor int) {
+	n := 0
+	for _, fn := range c.LibFuncs() {
+		if fn.Blocks == nil {
+			continue
+		}
+		var fb *FB
+		k := 0
+		for _, hdr := range fn.Blocks {
+			isHdr := false
+			for _, p := range hdr.Preds {
+				if hdr.Dominates(p) {
+					isHdr = true
+				}
+			}
+			ifi, isIf := hdr.Instrs[len(hdr.Instrs)-1].(*ssa.If)
+			if !isHdr || !isIf {
+				continue
+			}
+			cmp, isC := ifi.Cond.(*ssa.BinOp)
+			if !isC || cmp.Op != token.LSS {
+				continue
+			}
+			phi, isPhi := stripConv(cmp.X).(*ssa.Phi)
+			if !isPhi || phi.Block() != hdr {
+				continue
+			}
+			// the body shifts by 8*i
+			loop := naturalLoop(hdr)
+			shifts := false
+			for blk := range loop {
+				for _, in := range blk.Instrs {
+					sh, isSh := in.(*ssa.BinOp)
+					if !isSh || (sh.Op != token.SHL && sh.Op != token.SHR) {
+						continue
+					}
+					if m, isM := stripConv(sh.Y).(*ssa.BinOp); isM && m.Op == token.MUL {
+						k8, is8 := constInt(m.X)
+						other := m.Y
+						if !is8 {
+							k8, is8 = constInt(m.Y)
+							other = m.X
+						}
+						if is8 && k8 == 8 && stripConv(other) == ssa.Value(phi) {
+							shifts = true
+						}
+					}
+				}
+			}
+			if !shifts {
+				continue
+			}
+			if fb == nil {
+				fb = c.FB(fn)
+			}
+			bound := fb.lin(cmp.Y)
+			// bound = parameter + c
+			if len(bound.T) != 1 {
+				continue
+			}
+			isParam := false
+			for sym := range bound.T {
+				if _, ok := sym.(*ssa.Parameter); ok {
+					isParam = true
+				}
+			}
+			if !isParam {
+				continue
+			}
+			n++
+			k++
+			r.Check(bound.C == 0, rule, fmt.Sprintf("%s#byte-loop-covers-the-width-%d", c.Name(fn), k), c.InstrPos(cmp), fmt.Sprintf("bytes are moved with a shift of 8*i while i < %s", fb.linString(bound)))
+		}
+	}
+	if n < floor {
+		r.Undec(rule, "module#byte-loops-over-a-width-parameter", "", fmt.Sprintf("only %d byte loops over a width parameter found (expected >= %d)", n, floor))
+	}
+}
+
+func init() {
+	txt := "a value is stored under a datatype of its own size: in the root package an arm selected by `Kind() == K` that sets the size of a core.DatatypeMessage gives 1, 2, 4, 8 for the 8-, 16-, 32-, 64-bit kinds (a uint16 attribute declared 4 bytes wide carries 2 value bytes: other readers take the next bytes of the header as part of the value)"
+	shareRule([]string{"C05", "C02", "C01"}, txt, "C05", func(c *Ctx, r *Result, id string) { kindSizeRule(c, r, id, 4) })
+	txt = "an integer of `size` bytes is moved byte by byte over all its bytes: a loop that shifts by 8*i and runs while i < size + c, size a parameter, has c = 0 (with size-1 the top byte of the 3-byte heap ID length is lost: a 65536-byte object reads back empty, without error)"
+	shareRule([]string{"C15", "C02", "C11"}, txt, "C15", func(c *Ctx, r *Result, id string) { byteLoopCoversWidthRule(c, r, id, 2) })
+}
+
+// fillLoopCoversRule: a loop that fills result[i] of a slice made with n elements runs while i < n.
+func fillLoopCoversRule(c *Ctx, r *Result, rule string, floor int) {
+	n := 0
+	for _, fn := range c.LibFuncs() {
+		if fn.Blocks == nil {
+			continue
+		}
+		var fb *FB
+		k := 0
+		for _, hdr := range fn.Blocks {
+			isHdr := false
+			for _, p := range hdr.Preds {
+				if hdr.Dominates(p) {
+					isHdr = true
+				}
+			}
+			ifi, isIf := hdr.Instrs[len(hdr.Instrs)-1].(*ssa.If)
+			if !isHdr || !isIf {
+				continue
+			}
+			cmp, isC := ifi.Cond.(*ssa.BinOp)
+			if !isC || cmp.Op != token.LSS {
+				continue
+			}
+			if fb == nil {
+				fb = c.FB(fn)
+			}
+			lx := fb.lin(cmp.X)
+			var phi *ssa.Phi
+			for sym, co := range lx.T {
+				if p, isPhi := sym.(*ssa.Phi); isPhi && p.Block() == hdr && co == 1 && len(lx.T) == 1 {
+					phi = p
+				}
+			}
+			if phi == nil {
+				continue
+			}
+			loop := naturalLoop(hdr)
+			filled := false
+			for blk := range loop {
+				for _, in := range blk.Instrs {
+					st, isSt := in.(*ssa.Store)
+					if !isSt {
+						continue
+					}
+					ia, isIA := st.Addr.(*ssa.IndexAddr)
+					if !isIA || stripConv(ia.Index) != ssa.Value(phi) {
+						continue
+					}
+					ms, isMS := ia.X.(*ssa.MakeSlice)
+					if !isMS || loop[ms.Block()] {
+						continue
+					}
+					if sameByName(fb, fb.lin(ms.Len), fb.lin(cmp.Y)) {
+						filled = true
+					}
+				}
+			}
+			if !filled {
+				continue
+			}
+			n++
+			k++
+			r.Check(lx.C == 0, rule, fmt.Sprintf("%s#fill-loop-%d", c.Name(fn), k), c.InstrPos(cmp), fmt.Sprintf("a slice made with n elements is filled at [i] while i%+d < n", lx.C))
+		}
+	}
+	if n < floor {
+		r.Shortfall(c, rule, fmt.Sprintf("%s: only %d fill loops found (expected >= %d)", rule, n, floor))
+	}
+}
+
+func init() {
+	txt := "a result of n elements has all n filled: a loop that stores result[i] into a slice made with n elements runs while i < n (with i+1 < n the last element of every float64 partial read stays 0)"
+	shareRule([]string{"C09", "C01", "C06"}, txt, "C09", func(c *Ctx, r *Result, id string) { fillLoopCoversRule(c, r, id, 10) })
+}
